@@ -173,6 +173,43 @@ func checkC09(c *Ctx) {
 		}
 		c.Ob("C09.continue", "-", "-", "loops-with-trailing-updates-analysed", "-", loops > 0, "no loop analysed")
 	}
+	// ---- assembly range kernels are called on ranges the caller has checked
+	c.Rule("C09.asmbounds", "ASM-BOUNDS: an assembly routine that takes a count / index argument together with &s[0] works on a range derived from those arguments and does no bounds checking; the call is dominated by a test that mentions len(s) (length agreement panic, empty-input return, or the dispatch to the portable code when the range does not fit), or s was allocated by the caller — otherwise inputs on which the portable code panics make the assembly read or write outside the slice (found: small-field FFT kernels)", 150)
+	{
+		n := 0
+		var hits []Finding
+		for _, fn := range libFuncs(p1) {
+			k, h := asmCallBounds(p1, fn)
+			n += k
+			hits = append(hits, h...)
+		}
+		c.Instance("C09.asmbounds", n)
+		reportFindings(c, p1, "C09.asmbounds", nil, hits, "")
+		c.Ob("C09.asmbounds", "-", "-", "asm-range-calls-analysed", "-", n >= 150, "fewer calls of assembly range kernels found than on the reference tree")
+	}
+	// ---- scalar operands of vector operations are read once on every path
+	c.Rule("C09.subalias", "SUB-OBJECT ALIASING: in vector operations with a scalar operand (Vector.ScalarMul(a, b *Element)) the scalar may point to an element of the destination; no path reads it after the destination was written (the AVX-512 routines load it once, so a portable loop re-reading it would compute something else): every path works on a copy taken first", 20)
+	{
+		n := 0
+		for _, px := range []*Program{p1, p2} {
+			eff := sharedEffects(px)
+			var hits []Finding
+			for _, fn := range libFuncs(px) {
+				if fn.Parent() != nil || fn.Object() == nil || !fn.Object().Exported() || fn.Signature.Recv() == nil || namedName(fn.Signature.Recv().Type()) != "Vector" {
+					continue
+				}
+				k, h := subObjectHazards(px, eff, fn)
+				n += k
+				for i := range h {
+					h[i].Construct += "@" + px.Cfg.ID
+				}
+				hits = append(hits, h...)
+			}
+			reportFindings(c, px, "C09.subalias", nil, hits, "")
+		}
+		c.Instance("C09.subalias", n)
+		c.Ob("C09.subalias", "-", "-", "scalar-operands-analysed", "-", n >= 40, "fewer Vector operations with a scalar operand found than the 23 field packages have in two configurations")
+	}
 	c.Assume("bit-equality of assembly and Go results is not decided: assembly is a trusted base")
 	c.Trust("the assembly kernels process exactly the element range they are given")
 }
